@@ -915,7 +915,27 @@ class Exec:
             idx = self.key_or_violation(idx, t, st, node)
             if idx is None:
                 return
+            if t.flavour == "ddict" and isinstance(t.v, (TSet, TList)):
+                # defaultdict(set/list): a missing key is inserted with a fresh empty container, which is returned
+                has = heapops.dict_has(st.heap, base, idx)
+                st_has, st_miss = st.copy(), st.copy()
+                st_has.assume(has)
+                if not st_has.infeasible():
+                    yield st_has, heapops.dict_read(st_has.heap, base, idx)
+                st_miss.assume(z3.Not(has))
+                if not st_miss.infeasible():
+                    r = st_miss.new_ref("dflt")
+                    out = Val(t.v, r)
+                    if isinstance(t.v, TSet):
+                        heapops.set_write(st_miss.heap, out, z3.K(esort(t.v.e), z3.BoolVal(False)))
+                    else:
+                        heapops.list_write(st_miss.heap, out, z3.Empty(z3.SeqSort(esort(t.v.e))))
+                    heapops.dict_store(st_miss.heap, base, idx, out)
+                    yield st_miss, out
+                return
             if t.udict:
+                if not isinstance(t.v, (TNum, TInt)):
+                    raise Unsupported(f"read of {t}: default factory not modelled")
                 yield st, heapops.dict_read(st.heap, base, idx)
                 return
             for st1 in self.guard_exc(st, heapops.dict_has(st.heap, base, idx), "KeyError", node):
